@@ -23,7 +23,7 @@ ITEMS = ["WSMsgType opcodes", "WSCloseCode members / ALLOWED_CLOSE_CODES shape",
          "MAX_PAYLOAD_LEN", "_max_fragments formula", "reserved-bits test", "opcode set", "fragmented-control test",
          "control-length test", "control rsv1 test", "continuation rsv1 test", "64-bit length cap test",
          "pre-buffering size test", "inflate cap expression", "post-inflate size test", "close-code test",
-         "check order in READ_HEADER", "had_fragments shape", "feed_data latch shape", "WebSocketDataQueue read order / FIFO shapes"]
+         "interleaved data frame test (and its position)", "check order in READ_HEADER", "had_fragments shape", "feed_data latch shape", "WebSocketDataQueue read order / FIFO shapes"]
 
 READER = "aiohttp/_websocket/reader_py.py"
 MODELS = "aiohttp/_websocket/models.py"
@@ -385,7 +385,14 @@ def generate() -> str:
     t_cc = _one(hitems, "PROTOCOL_ERROR", "Invalid close code", "close code test")
     out.append(f"Definition close_code_bad (code : N) : bool := {mb.test(t_cc[1])}.")
     _one(hitems, "MESSAGE_TOO_BIG", "Compressed message has too many deflate members", "too many members")
-    _one(hitems, "PROTOCOL_ERROR", "The opcode in non-fin frame is expected", "in-progress test")
+    t_im = _one(hitems, "PROTOCOL_ERROR", "The opcode in non-fin frame is expected", "in-progress test")
+    out.append("(* a TEXT/BINARY frame while a fragmented message is open (RFC 6455 5.4); tested before anything is buffered *)")
+    out.append(f"Definition data_in_message (opcode msg_opcode : N) : bool := {mb.test(t_im[1])}.")
+    if not (t_cs[4] < t_im[4]):
+        raise TranslatorError("_handle_frame: the interleaving test must follow the continuation-not-started test")
+    nf = [n for n in ast.walk(hf) if isinstance(n, ast.If) and ast.unparse(n.test) == "not fin"]
+    if len(nf) != 1 or not (t_im[4] < nf[0].lineno):
+        raise TranslatorError("_handle_frame: the interleaving test must precede the `if not fin:` branch that buffers the payload")
     _one(hitems, "PROTOCOL_ERROR", "Invalid close frame", "close frame length test")
     utf = [t for t in hitems if t[2] == "INVALID_TEXT"]
     if len(utf) != 2 or any(t[1] is not None for t in utf):
